@@ -73,10 +73,23 @@ PROPS = {
             "cxxflags": ["-frounding-math", "-ffp-contract=off"], "ref_sources": FPREF},
     "C13": {"id": "C13", "source": "c13.cpp", "files": FLT_VEC_FILES + SCALAR_FILES[8:], "min_configs": {"quick": 8, "thorough": 30},
             "cxxflags": ["-frounding-math", "-ffp-contract=off"], "ref_sources": FPREF},
+    "C14": {"id": "C14", "source": "c14.cpp", "files": ["include/avel/impl/denominators/Denominator%s.hpp" % s for s in ("8u", "8i", "16u", "16i", "32u", "32i", "64u", "64i")] + ["include/avel/impl/scalars/Scalars.hpp"],
+            "min_configs": {"quick": 8, "thorough": 30}, "configs": cfgs_scalar_sets, "optional_classes": ["distinct_divisors_in_lanes", "broadcast_from_scalar_denominator"], "max_success": {"quick": 3000, "thorough": 50000}},
+    "C15": {"id": "C15", "source": "c14.cpp", "cxxflags": ["-DVP_PROP_C15"], "files": [f.replace("vectors/Vec", "denominator_vectors/Denominator") for f in INT_VEC_FILES], "min_configs": {"quick": 8, "thorough": 30}},
     "C02": {"id": "C02", "source": "c02.cpp", "files": INT_VEC_FILES + FLT_VEC_FILES, "min_configs": {"quick": 8, "thorough": 30}, "digest_binding": True},
 }
 
 MANIFEST_TEXT = {
+    "C14": {
+        "technique": "property-based testing: exhaustive 8-bit (quick) / 16-bit (thorough) (n, d) pairs, per-divisor boundary numerators (multiples of d nearest the range ends +-1) over the divisor lattice + rapidcheck, __int128 division oracle + q*d+r==n, SIGFPE guard; libFuzzer target in the thorough tier",
+        "level": "Generated-input search over (n, d), d != 0, for the eight scalar Denominator<T> types and the forms div, /, %, /=, %=, value() in every configuration incl. the scalar instruction-set ladders (none/X86/POPCNT/LZCNT/BMI/BMI2 x g++/clang++ x -O1/-O2): d from {+-1, +-2^k, +-(2^k+-1), MAX, MIN, random}, n from {0, +-1, MIN, MAX, k*d and k*d+-1 at both range ends, random}; construction and use run under the signal guard.",
+        "note": "Trusted: __int128 oracle, host CPU, compilers. (MIN, -1) is excluded for signed types as the property says. Exhaustive for 8-bit pairs only in the quick tier.",
+    },
+    "C15": {
+        "technique": "property-based testing: exhaustive 8-bit (n, d) lane pairs with different divisors in different lanes, boundary numerators per divisor + rapidcheck; differential between Denominator<V>(Denominator<T>(d)), Denominator<V>(V{d}) and the __int128 quotient; SIGFPE guard",
+        "level": "Generated-input search over numerator vectors x divisor vectors (non-zero, different per lane, every divisor class visiting every lane) for div, /, %, /=, %=, value() on every integer vector type, and over every scalar divisor for the broadcast constructor (all 8-bit d exhaustively, lattice + random otherwise); the broadcast form must agree lane for lane with the vector-built denominator and with the native quotient; a missing broadcast constructor is itself a failure.",
+        "note": "Trusted: __int128 oracle, host CPU, compilers. MIN/-1 lanes are avoided by moving the numerator. 16-bit pairs are exhaustive only in the thorough tier.",
+    },
     "C13": {
         "technique": "property-based testing: strided/exhaustive sweep of all binary32 bit patterns, stratified binary64 patterns (every exponent, both NaN kinds, both signs), special-value cross products + rapidcheck pairs, bit-field oracle cross-checked against <cmath>",
         "level": "Generated-input search over every float vector type and the scalar overloads in every configuration: fpclassify/isnan/isinf/isfinite/isnormal/signbit on every 1019th binary32 pattern (quick) or all 2^32 (thorough) and on every binary64 exponent x mantissa boundary x sign; isgreater/isgreaterequal/isless/islessequal/islessgreater/isunordered on the special-value cross product (zeros, subnormals, infinities, quiet and signalling NaNs of both signs, adjacent values) plus random pairs. Oracle: classification from the exponent/mantissa fields (must agree with std::fpclassify, otherwise the run reports a harness error), ordered comparison on a sign-magnitude key with NaN -> false.",
